@@ -406,6 +406,134 @@ func init() {
 			checked(o, "http_stalled_reply_then_cancel", id, ok, d)
 		}
 		raw.Close()
+
+		// 6. HTTP unary: the reply (headers with a Content-Length, small and large) stalls in the middle of
+		// its body, then the context ends (cancelled, deadline): the call must return the status, every time
+		// (two things become ready together when the read is aborted; no choice among them may surface the
+		// raw context error)
+		for _, size := range []int{64, 3000, 20000} {
+			body := make([]byte, size)
+			var sent int32
+			rawU := httptest.NewServer(http.HandlerFunc(func(w http.ResponseWriter, rq *http.Request) {
+				io.Copy(io.Discard, rq.Body)
+				w.Header().Set("Content-Type", httpgrpc.UnaryRpcContentType_V1)
+				w.Header().Set("Content-Length", fmt.Sprint(size))
+				w.WriteHeader(200)
+				w.Write(body[:int(atomic.LoadInt32(&sent))])
+				w.(http.Flusher).Flush()
+				<-rq.Context().Done()
+			}))
+			uu, _ := url.Parse(rawU.URL)
+			hcu := &httpgrpc.Channel{Transport: &http.Transport{}, BaseURL: uu}
+			for _, how := range []string{"cancel", "deadline"} {
+				rounds := 14
+				if thorough {
+					rounds = 60
+				}
+				var results []string
+				ok := true
+				for k := 0; k < rounds; k++ {
+					atomic.StoreInt32(&sent, int32((k*7)%size))
+					var ctx context.Context
+					var cancel context.CancelFunc
+					want := codes.Canceled
+					if how == "cancel" {
+						ctx, cancel = context.WithCancel(context.Background())
+						time.AfterFunc(15*time.Millisecond, cancel)
+					} else {
+						ctx, cancel = context.WithTimeout(context.Background(), 15*time.Millisecond)
+						want = codes.DeadlineExceeded
+					}
+					e := hcu.Invoke(ctx, "/verif.Svc/U", &hx.Msg{}, &hx.Msg{})
+					cancel()
+					if !isCtxStatus(e, want) {
+						ok = false
+						results = append(results, fmt.Sprintf("round %d (stalled after %d bytes): %v", k, (k*7)%size, e))
+					}
+				}
+				id++
+				d := map[string]interface{}{"transport": "httpgrpc", "kind": "unary", "reply_content_length": size, "context_ends_by": how, "rounds": rounds, "not_the_status": results}
+				if !ok {
+					o.Violate("a unary HTTP call whose context ended while its reply body stalled did not return the context's status", d, results, how)
+				}
+				checked(o, "http_unary_stalled_reply_"+how, id, ok, d)
+			}
+			rawU.Close()
+		}
+
+		// 7. contexts that end with a CAUSE (WithCancelCause, WithTimeoutCause, an ancestor cancelled with a
+		// cause): ctx.Err() is still Canceled / DeadlineExceeded, and that is what the caller must get
+		causeSvc := &hx.Svc{
+			Unary: func(ctx context.Context, req *hx.Msg) (*hx.Msg, error) {
+				<-ctx.Done()
+				return nil, ctx.Err()
+			},
+			Stream: func(kind string, ss grpc.ServerStream) error {
+				for ss.RecvMsg(&hx.Msg{}) == nil { // to the end of the requests (over HTTP: see F24)
+				}
+				<-ss.Context().Done()
+				return ss.Context().Err()
+			},
+		}
+		for _, t := range bothTransports(causeSvc) {
+			for _, mk := range []struct {
+				name string
+				want codes.Code
+				mk   func() (context.Context, func())
+			}{
+				{"WithCancelCause, cancelled with a custom error", codes.Canceled, func() (context.Context, func()) {
+					c, cancel := context.WithCancelCause(context.Background())
+					time.AfterFunc(15*time.Millisecond, func() { cancel(fmt.Errorf("operator gave up")) })
+					return c, func() { cancel(nil) }
+				}},
+				{"child of a context cancelled with a custom error", codes.Canceled, func() (context.Context, func()) {
+					p, cancel := context.WithCancelCause(context.Background())
+					c, cancel2 := context.WithCancel(p)
+					time.AfterFunc(15*time.Millisecond, func() { cancel(fmt.Errorf("shutting down")) })
+					return c, func() { cancel2(); cancel(nil) }
+				}},
+				{"WithTimeoutCause", codes.DeadlineExceeded, func() (context.Context, func()) {
+					c, cancel := context.WithTimeoutCause(context.Background(), 15*time.Millisecond, fmt.Errorf("budget exhausted"))
+					return c, cancel
+				}},
+			} {
+				for _, kind := range []string{"unary", "SS", "BD"} {
+					ctx, done := mk.mk()
+					var res []string
+					ok := true
+					if kind == "unary" {
+						e := t.ch.Invoke(ctx, "/verif.Svc/U", &hx.Msg{}, &hx.Msg{})
+						res = append(res, fmt.Sprint(e))
+						ok = isCtxStatus(e, mk.want)
+					} else {
+						cs, e := t.ch.NewStream(ctx, hx.StreamDescOf(kind), "/verif.Svc/"+kind)
+						if e != nil {
+							res = append(res, fmt.Sprint(e))
+							ok = isCtxStatus(e, mk.want)
+						} else {
+							cs.SendMsg(&hx.Msg{})
+							cs.CloseSend()
+							for j := 0; j < 2; j++ {
+								e := cs.RecvMsg(&hx.Msg{})
+								res = append(res, fmt.Sprint(e))
+								if !isCtxStatus(e, mk.want) {
+									ok = false
+								}
+							}
+							runtime.KeepAlive(cs)
+						}
+					}
+					done()
+					id++
+					d := map[string]interface{}{"transport": t.name, "kind": kind, "context": mk.name, "results": res}
+					if !ok {
+						o.Violate("a call whose context ended with a cause did not return the Canceled / DeadlineExceeded status", d, res, mk.want.String())
+					}
+					checked(o, "context_with_cause_"+t.name, id, ok, d)
+				}
+			}
+			t.stop()
+		}
 		o.Check, o.Oracle, o.Finding = "check_c04", "oracle_c04", "finding_c04"
 		o.Shard = 60
 	}
